@@ -657,6 +657,63 @@ func scenFifoAcrossStreamBreak(tr *vtrace.Tracer, kind string) error {
 	return nil
 }
 
+// C03 with a full send buffer: the sender is held in a write, the buffer (2) is
+// filled by asynchronous calls, then four calls of the kind under test are
+// invoked one after the other from one goroutine - each only after the previous
+// invocation has returned.  An invocation that blocks because the buffer is full
+// is let through by releasing the sender.  Whatever the kind (in particular
+// one-way calls without send-waiting, whose invocations return at once), the
+// server must start the handlers in the order of the invocations.
+func scenFifoFullBuffer(tr *vtrace.Tracer, kind string) error {
+	l, err := newLife(tr, EnvOpts{Nodes: 1, SendBuf: 2, MgrOpts: []gorums.ManagerOption{gorums.WithBackoff(fastBackoff)}})
+	if err != nil {
+		return err
+	}
+	defer l.finish()
+	w := l.call("Rpc", 1, false, false)
+	l.wait(w, SyncTimeout)
+	g := l.gate("SendWait", 1)
+	opened := false
+	open := func() {
+		if !opened {
+			opened = true
+			g.Open()
+		}
+	}
+	defer open()
+	from := tr.Len()
+	returned := func(c *lifeCall, d time.Duration) bool {
+		return tr.Await(from, d, func(e vtrace.Event) bool { return e.Ev == "StubRet" && e.Tok == c.tok }) >= 0
+	}
+	first := l.call("Async", 1, false, false)
+	if !returned(first, SyncTimeout) || !g.Arrived(SyncTimeout) {
+		return fmt.Errorf("sender did not reach SendWait")
+	}
+	for i := 0; i < 2; i++ {
+		if c := l.call("Async", 1, false, false); !returned(c, SyncTimeout) {
+			return fmt.Errorf("the send buffer did not take request %d", i)
+		}
+	}
+	var last *lifeCall
+	for i := 0; i < 4; i++ {
+		c := l.call(kind, 1, false, false)
+		if !returned(c, 30*time.Millisecond) {
+			// the invocation waits for room in the buffer (or for its reply): let the sender go on
+			open()
+			if !returned(c, QuietT) {
+				break
+			}
+		}
+		last = c
+	}
+	open()
+	if last != nil {
+		tr.Await(from, QuietT, func(e vtrace.Event) bool { return e.Ev == "HStart" && e.Tok == last.tok })
+	}
+	time.Sleep(100 * time.Millisecond)
+	return nil
+}
+
 // C18: the node dies after the sender's health check has passed, so SendMsg
 // itself fails; the call's context lives on.  Whatever way the call ends, no
 // per-call goroutine (cancellation watcher) and no router may be left.
@@ -1103,6 +1160,7 @@ var LifeScenarios = map[string][]LifeScenario{
 	},
 	"C03": {
 		{Name: "fifo-across-stream-break", Run: scenFifoAcrossStreamBreak},
+		{Name: "fifo-full-buffer", Run: scenFifoFullBuffer},
 	},
 	"C18": {
 		{Name: "send-fails-after-check", Run: scenSendFailsAfterCheck},
